@@ -188,6 +188,43 @@ def _one_shape(arg):
     return evals, distinct, fails, samples
 
 
+DUP_SHAPES = [("A", "B", "A"), ("A", "A"), ("R", "R"), ("A", "R", "B", "A"), ("A", ("B", "A"), "A"), (("A", "B"), ("A", "B")), ("B", ("A", "A"))]
+DUP_LINES = {"A": "permit tcp any any eq 80", "B": "deny ip any any", "R": "remark same text"}
+
+
+def _dup_case(arg):
+    import cisco_acl
+    platform, kinds, first, second = arg
+
+    def mk(k):
+        if isinstance(k, tuple):
+            g = cisco_acl.AceGroup(platform=platform)
+            g.items.extend(mk(x) for x in k)
+            return g
+        l = DUP_LINES[k]
+        return cisco_acl.Remark(l, platform=platform) if l.startswith("remark") else cisco_acl.Ace(l, platform=platform)
+    acl = cisco_acl.Acl("ip access-list extended A" if platform == "ios" else "ip access-list A", platform=platform)
+    acl.items.extend(mk(k) for k in kinds)
+
+    def leaves(items):
+        out = []
+        for o in items:
+            out.extend(leaves(o.items) if isinstance(o, cisco_acl.AceGroup) else [o])
+        return out
+    lv = leaves(acl.items)
+    inputs = dict(platform=platform, kinds=list(kinds), first=list(first), second=list(second))
+    try:
+        acl.resequence(*first)
+        r = acl.resequence(*second)
+    except Exception as ex:
+        return False, f"{type(ex).__name__}: {ex}", inputs
+    want = [second[0] + i * second[1] for i in range(len(lv))]
+    got = [o.sequence for o in lv]
+    if got != want or r != want[-1]:
+        return False, f"after resequence{first} then resequence{second}: numbers {got} (returned {r}), expected {want}", inputs
+    return True, "", inputs
+
+
 def bounded(chk):
     import cisco_acl
     from pyvc.driver import pmap
@@ -209,6 +246,21 @@ def bounded(chk):
     chk.add_bounded("Acl.resequence end-to-end (real objects, rendered text)", evals, distinct,
                     f"all ordered trees with <= {max_leaves} leaves and nesting depth <= 3 ({len(all_shapes)} shapes) x start in {starts} x step in {steps} x platforms",
                     viol, time.time() - t0, samples, exhaustive=True)
+    # duplicate entries + a previous numbering (a renumbered entry may then compare equal to a not yet renumbered one)
+    t0 = time.time()
+    dres = pmap(_dup_case, [(p_, sh, a, b) for p_ in ("ios", "nxos") for sh in DUP_SHAPES
+                            for a in itertools.product((10, 20, 30), (10, 20)) for b in itertools.product((5, 10, 20, 30, 40), (1, 10, 20))])
+    dv = 0
+    for ok, what, inputs in dres:
+        if not ok:
+            dv += 1
+            chk.finding("bounded/Acl.resequence", what, inputs=inputs, key="bounded/Acl.resequence:numbers:duplicates",
+                        cmd=("import sys; sys.path.insert(0, 'props'); import C10\n"
+                             f"ok, what, _ = C10._dup_case({(inputs['platform'], tuple(inputs['kinds']), tuple(inputs['first']), tuple(inputs['second']))!r})\n"
+                             "print(what); sys.exit(0 if ok else 1)\n"))
+    chk.add_bounded("Acl.resequence twice on ACLs with duplicate entries (inside and outside groups)", len(dres), len(dres),
+                    f"{len(DUP_SHAPES)} shapes with repeated lines x first (start, step) in {{10,20,30}}x{{10,20}} x second in {{5..40}}x{{1,10,20}} x platforms",
+                    dv, time.time() - t0, [dict(kinds=list(DUP_SHAPES[0]))], exhaustive=True)
     # address groups
     t0 = time.time()
     evals = distinct = viol = 0
